@@ -13,6 +13,7 @@ struct RunOutcome {
     std::string sample;                      // one-line JSON description of the case (evidence samples)
     std::string distinct_key; bool nontrivial = false;
     std::vector<SliceRec> schedule;          // schedule actually taken (multi-task properties)
+    std::vector<EnvSpec> failing_envs; bool query_failed = false; // C08: what the replay file of a violation has to contain
 };
 struct GenCfg { bool thorough = false; std::string variant; };
 
